@@ -16,8 +16,14 @@ type IntV struct {
 type BoolV struct{ T *Term }
 type StrV struct {
 	C   string
-	Sym *Term // non-nil: opaque symbolic string (bv64 id)
+	Sym *Term // non-nil: opaque symbolic string (bv64 id): only equality is modelled
+	// bounded symbolic string (zz.StrN): B[i] are its bytes (bv8), L its length (bv64, L <= len(B)).
+	// Equality, len, constant-bound slicing and constant indexing are exact; everything else is unsupported.
+	B []*Term
+	L *Term
 }
+
+func (s StrV) isConc() bool { return s.Sym == nil && s.B == nil }
 type TimeV struct {
 	Zero *Term // Bool
 	NS   *Term // bv64, signed nanoseconds since epoch
